@@ -49,7 +49,7 @@ type c02Reg struct {
 	ph, sec  int
 	tr       pb.TransportType
 	prefixID int32
-	ppMode   int // 0 registered prefix id, 1 parameters absent, 2 typed-nil parameters
+	ppMode   int // 0 registered prefix id, 1 parameters absent, 2 typed-nil parameters, 3 parameters without prefix id (= 0)
 	rid      int
 	ident    string
 	// ground truth
@@ -63,7 +63,7 @@ type c02World struct {
 	pub     [32]byte
 	ptr     *prefix.Transport
 	regs    []*c02Reg
-	vtime   map[*DecoyTimeout]int64
+	lastNow int64
 	mops    []string
 	flights map[string][]byte
 }
@@ -79,7 +79,7 @@ func c02Keys() (priv, pub [32]byte) {
 }
 
 func newC02World() *c02World {
-	w := &c02World{vtime: map[*DecoyTimeout]int64{}, flights: map[string][]byte{}}
+	w := &c02World{flights: map[string][]byte{}}
 	w.priv, w.pub = c02Keys()
 	w.rm = c09Manager(&c09Live{live: map[string]bool{}})
 	rd := w.rm.registeredDecoys
@@ -111,6 +111,8 @@ func (w *c02World) mkDecoy(r *c02Reg) *DecoyRegistration {
 		TransportPtr:       &tp,
 		RegistrationSource: &src,
 	}
+	pre := r.sec%2 == 1
+	d.Flags = &pb.RegistrationFlags{Prescanned: &pre}
 	if r.tr == pb.TransportType_Prefix {
 		switch r.ppMode {
 		case 0:
@@ -118,6 +120,9 @@ func (w *c02World) mkDecoy(r *c02Reg) *DecoyRegistration {
 			d.transportParams = &pb.PrefixTransportParams{PrefixId: &id}
 		case 2:
 			d.transportParams = (*pb.PrefixTransportParams)(nil)
+		case 3:
+			// parameters present, prefix id field unset: registered for the default prefix (id 0)
+			d.transportParams = &pb.PrefixTransportParams{}
 		}
 	}
 	return d
@@ -136,22 +141,22 @@ func (w *c02World) find(ph, sec int, tr pb.TransportType) *c02Reg {
 	return nil
 }
 
-func (w *c02World) stamp(now int64) {
-	for _, to := range w.rm.registeredDecoys.decoysTimeouts {
-		if _, ok := w.vtime[to]; !ok {
-			w.vtime[to] = now
+// advance moves the virtual clock: records are aged by shifting their real timestamps (relative
+// shifts only, so anything the code writes into registrationTime is preserved).
+func (w *c02World) advance(now int64) {
+	if d := now - w.lastNow; d > 0 {
+		for _, to := range w.rm.registeredDecoys.decoysTimeouts {
+			to.registrationTime = to.registrationTime.Add(-time.Duration(d) * time.Second)
 		}
+		w.lastNow = now
 	}
 }
 
 // op: 'r' register (track + validate), 't' track only, 'm' mark used, 's' sweep
 func (w *c02World) apply(kind byte, ph, sec int, tr pb.TransportType, prefixID int32, ppMode int, now int64) {
 	rd := w.rm.registeredDecoys
+	w.advance(now)
 	if kind == 's' {
-		real := time.Now()
-		for _, to := range rd.decoysTimeouts {
-			to.registrationTime = real.Add(-time.Duration(now-w.vtime[to]) * time.Second)
-		}
 		rd.removeOldRegistrations(w.rm.Logger)
 		for _, r := range w.regs {
 			if r.tracked {
@@ -193,7 +198,6 @@ func (w *c02World) apply(kind byte, ph, sec int, tr pb.TransportType, prefixID i
 		}
 		w.mops = append(w.mops, fmt.Sprintf("m,%s,%s,%d", phs, r.ident, int(tr)))
 	}
-	w.stamp(now)
 }
 
 // flight builds the genuine first flight a client with secret `sec` sends for transport tr (and
@@ -311,7 +315,7 @@ func (w *c02World) offer(out *vlib.Out, o c02Offer) {
 		pp := "-"
 		if r.tr == pb.TransportType_Prefix {
 			switch r.ppMode {
-			case 0:
+			case 0, 3:
 				pp = fmt.Sprint(r.prefixID)
 			case 2:
 				pp = "nil"
@@ -371,7 +375,7 @@ func (w *c02World) offer(out *vlib.Out, o c02Offer) {
 	var legit *c02Reg
 	if o.owner != nil && o.genuine && o.tr == o.owner.tr {
 		if c := w.find(o.ph, o.owner.sec, o.tr); c != nil {
-			if o.tr != pb.TransportType_Prefix || (c.ppMode == 0 && c.prefixID == o.pid) {
+			if o.tr != pb.TransportType_Prefix || ((c.ppMode == 0 || c.ppMode == 3) && c.prefixID == o.pid) {
 				legit = c
 			}
 		}
@@ -408,8 +412,8 @@ func c02RunWorld(out *vlib.Out, r *vlib.Rand, nOffers int) {
 		ph, sec, tr := r.Intn(nph), r.Intn(nsec), trs[r.Intn(3)]
 		pid := int32(r.Intn(10))
 		mode := 0
-		if tr == pb.TransportType_Prefix && r.Chance(1, 5) {
-			mode = 1 + r.Intn(2)
+		if tr == pb.TransportType_Prefix && r.Chance(1, 4) {
+			mode = 1 + r.Intn(3)
 			pid = 0
 		}
 		switch k := r.Intn(10); {
@@ -420,8 +424,10 @@ func c02RunWorld(out *vlib.Out, r *vlib.Rand, nOffers int) {
 		case k < 9:
 			w.apply('m', ph, sec, tr, pid, mode, now)
 		default:
-			now += 60*int64(r.Range(1, 400)) + 30
-			w.apply('s', 0, 0, 0, 0, 0, now)
+			// registrations on whole minutes, sweeps on the half minute: no record is ever exactly at a limit
+			now += 60 * int64(r.Range(1, 400))
+			w.apply('s', 0, 0, 0, 0, 0, now+30)
+			now += 60
 		}
 		if r.Chance(1, 3) {
 			now += 60 * int64(r.Range(1, 8))
@@ -527,16 +533,17 @@ func TestVerifC02(t *testing.T) {
 		w.apply('r', 0, 0, pb.TransportType_Prefix, 0, 1, 0)
 		w.apply('r', 0, 1, pb.TransportType_Prefix, 0, 2, 0)
 		w.apply('r', 0, 2, pb.TransportType_Prefix, 3, 0, 0)
+		w.apply('r', 2, 0, pb.TransportType_Prefix, 0, 3, 0)
 		w.apply('t', 1, 0, pb.TransportType_Min, 0, 0, 0)
 		w.apply('r', 1, 1, pb.TransportType_Min, 0, 0, 0)
 		w.apply('r', 1, 2, pb.TransportType_Obfs4, 0, 0, 0)
-		for _, reg := range w.regs[:3] {
+		for _, reg := range w.regs[:4] {
 			for pid := int32(0); pid < 10; pid++ {
 				f := w.flight(reg.sec, reg.tr, pid, 0)
 				w.offer(out, c02Offer{kind: "cross-prefix", ph: reg.ph, tr: reg.tr, data: f, owner: reg, genuine: true, pid: pid})
 			}
 		}
-		for _, reg := range w.regs[3:] {
+		for _, reg := range w.regs[4:] {
 			f := w.flight(reg.sec, reg.tr, 0, 0)
 			w.offer(out, c02Offer{kind: "genuine", ph: reg.ph, tr: reg.tr, data: f, owner: reg, genuine: true})
 		}
